@@ -17,10 +17,10 @@ CONSTANTS
   RuleSets <- RuleSetsGen
   Senders = {"A","C"}
   Dests = {"A","C"}
-  UserRelays = {"","B"}
+  UserRelays = {"","A","B","C"}
   UserPorts = {"mock"}
   UserData = {"d1","d2"}
-  RuleChains = {"B"}
+  RuleChains = {"A","B","C"}
   AdvOn = TRUE
   ExpirePairs <- NoPairs
   ExportOn = FALSE
